@@ -3,7 +3,9 @@
 //! with the 128-byte preamble, (b) from a byte source WITHOUT it (starting at "DICM"), (c) by path, with and
 //! without the preamble, with the preamble option Auto, and with Always / Never where they apply: every way
 //! gives the same object (whose meta table is the one written and which writes back to the same bytes); a non-zero preamble content does
-//! not matter; a file that is too short, or has no magic code, is an error and never a panic.
+//! not matter; a source that delivers the file in pieces of 1 / 2 / 100 / 131 / 133 bytes gives the same object; a file whose media
+//! storage UIDs are empty in the meta group reads to a table that records its own length and writes back to a file that reads
+//! back equal; a file that is too short, or has no magic code, is an error and never a panic.
 use dicom_core::{dicom_value, DataElement, PrimitiveValue, Tag, VR};
 use dicom_object::file::ReadPreamble;
 use dicom_object::{FileMetaTableBuilder, InMemDicomObject, OpenFileOptions};
@@ -71,6 +73,51 @@ fn main() {
             // the plain entry points
             t.check(matches!(dicom_object::from_reader(&bytes[..]), Ok(o) if same(&o)), || format!("{}: from_reader with the preamble", label));
             t.check(matches!(dicom_object::from_reader(&without[..]), Ok(o) if same(&o)), || format!("{}: from_reader without the preamble", label));
+            // a byte source that delivers its bytes in pieces (1, 2, 100, 131, 133 bytes per read), with and without the preamble
+            struct Chunked<'a> { data: &'a [u8], pos: usize, step: usize }
+            impl std::io::Read for Chunked<'_> {
+                fn read(&mut self, buf: &mut [u8]) -> std::io::Result<usize> {
+                    let n = self.step.min(buf.len()).min(self.data.len() - self.pos);
+                    buf[..n].copy_from_slice(&self.data[self.pos..self.pos + n]);
+                    self.pos += n;
+                    Ok(n)
+                }
+            }
+            for step in [1usize, 2, 100, 131, 133] {
+                for (what, data) in [("with the preamble", &bytes), ("without the preamble", &without)] {
+                    let r = std::panic::catch_unwind(|| dicom_object::from_reader(Chunked { data: &data[..], pos: 0, step }));
+                    match r {
+                        Ok(Ok(o)) => t.check(same(&o), || format!("{}: read {} from a source delivering {} bytes per read gives a different object", label, what, step)),
+                        Ok(Err(e)) => t.check(false, || format!("{}: reading {} from a source delivering {} bytes per read failed: {}", label, what, step, e)),
+                        Err(_) => t.check(false, || format!("{}: reading {} from a source delivering {} bytes per read panicked", label, what, step)),
+                    }
+                }
+            }
+            // a file whose meta group has EMPTY media storage UIDs (what `FileMetaTableBuilder::..build()` gives without them): the reader
+            // fills them in from the data set; the table it returns must still record the length of its own encoding, and writing
+            // the object again must give a file that reads back to the same object
+            if let Ok(meta) = FileMetaTableBuilder::new().transfer_syntax(*ts).build() {
+                let mut o = object(n);
+                o.put(DataElement::new(Tag(0x0008, 0x0016), VR::UI, PrimitiveValue::from("1.2.840.10008.5.1.4.1.1.7")));
+                let f = o.with_exact_meta(meta);
+                let mut b1 = Vec::new();
+                if f.write_all(&mut b1).is_ok() {
+                    match dicom_object::from_reader(&b1[..]) {
+                        Ok(read) => {
+                            let mut g = Vec::new();
+                            let _ = read.meta().write(&mut g);
+                            t.check(g.len() >= 12 && read.meta().information_group_length as usize == g.len() - 12,
+                                || format!("{}: file with empty media storage UIDs: the table read records group length {}, its encoding has {} bytes after the group length element", label, read.meta().information_group_length, g.len().saturating_sub(12)));
+                            let mut b2 = Vec::new();
+                            let ok = read.write_all(&mut b2).is_ok();
+                            let again = dicom_object::from_reader(&b2[..]);
+                            t.check(ok && matches!(&again, Ok(a) if *a.meta() == *read.meta() && **a == *read),
+                                || format!("{}: file with empty media storage UIDs: written again, it reads back as {:?} instead of {:?}", label, again.as_ref().map(|a| a.meta().clone()).map_err(|e| e.to_string()), read.meta()));
+                        }
+                        Err(e) => t.check(false, || format!("{}: file with empty media storage UIDs does not read: {}", label, e)),
+                    }
+                }
+            }
             // malformed starts: an error, never a panic
             for cut in [0usize, 1, 4, 127, 128, 131, 132, 140] {
                 let r = std::panic::catch_unwind(|| dicom_object::from_reader(&bytes[..cut.min(bytes.len())]).is_ok());
